@@ -86,7 +86,10 @@ def parse_mir(text):
         if cur is None:
             cm = CONST_RE.match(line)
             if cm:
-                cur = Fn(cm.group(1).strip(), [], cm.group(2).strip(), line)
+                # the name may itself contain ": " (`<impl at file:9:1: 9:20>`): split at the LAST ": " before " = {"
+                body = re.sub(r"^(?:const|static(?: mut)?) ", "", line)[:-len(" = {")]
+                cname, _, cty = body.rpartition(": ")
+                cur = Fn(cname.strip(), [], cty.strip(), line)
                 cur.is_const = True
                 continue
             m = FN_RE.match(line) or FN_RE_UNIT.match(line)
